@@ -166,6 +166,10 @@ func (s *icmpDriver) handleProbeLayers(parser *packets.FrameParser) (*common.Pro
 			if err != nil {
 				return nil, &common.BadPacketError{Err: fmt.Errorf("icmpDriver failed to get ICMP info: %w", err)}
 			}
+			if icmpInfo.WrappedProtocol != layers.IPProtocolICMPv4 {
+				log.Tracef("icmpDriver ignored ICMP packet which quotes another protocol: %s", icmpInfo.WrappedProtocol)
+				return nil, common.ErrPacketDidNotMatchTraceroute
+			}
 			local := s.localAddr
 			target := s.params.Target
 			if icmpInfo.ICMPPair.DstAddr.Compare(target) != 0 {
@@ -233,6 +237,10 @@ func (s *icmpDriver) handleProbeLayers(parser *packets.FrameParser) (*common.Pro
 			icmpInfo, err := parser.GetICMPInfo()
 			if err != nil {
 				return nil, &common.BadPacketError{Err: fmt.Errorf("icmpDriver failed to get ICMP info: %w", err)}
+			}
+			if icmpInfo.WrappedProtocol != layers.IPProtocolICMPv6 {
+				log.Tracef("icmpDriver ignored ICMP packet which quotes another protocol: %s", icmpInfo.WrappedProtocol)
+				return nil, common.ErrPacketDidNotMatchTraceroute
 			}
 			local := s.localAddr
 			target := s.params.Target
